@@ -473,6 +473,39 @@ static Janet v_double_to_bits(int32_t argc, Janet *argv) {
     return janet_cstringv(buf);
 }
 
+static Janet v_real_sleep(int32_t argc, Janet *argv) {
+    janet_fixarity(argc, 1);
+    double ms = janet_getnumber(argv, 0);
+    struct timespec ts;
+    ts.tv_sec = (time_t)(ms / 1000);
+    ts.tv_nsec = (long)((ms - ts.tv_sec * 1000.0) * 1e6);
+    __real_nanosleep(&ts, NULL);
+    return janet_wrap_nil();
+}
+
+/* true while process pid exists and is not a zombie */
+static Janet v_pid_running(int32_t argc, Janet *argv) {
+    janet_fixarity(argc, 1);
+    int pid = janet_getinteger(argv, 0);
+    char path[64];
+    snprintf(path, sizeof path, "/proc/%d/stat", pid);
+    FILE *f = fopen(path, "r");
+    if (!f) return janet_wrap_false();
+    char buf[512];
+    size_t n = fread(buf, 1, sizeof buf - 1, f);
+    fclose(f);
+    buf[n] = 0;
+    char *rp = strrchr(buf, ')');
+    if (!rp || !rp[1] || !rp[2]) return janet_wrap_false();
+    return janet_wrap_boolean(rp[2] != 'Z' && rp[2] != 'X');
+}
+
+static Janet v_live_threads(int32_t argc, Janet *argv) {
+    (void) argv;
+    janet_fixarity(argc, 0);
+    return janet_wrap_integer(__atomic_load_n(&live_threads, __ATOMIC_SEQ_CST));
+}
+
 /* extension points implemented in other harness files */
 void verif_register_more(JanetTable *env);
 void verif_io_init(void);
@@ -493,6 +526,9 @@ static const JanetReg verif_cfuns[] = {
     {"verif/opt-passes", v_opt_passes, "(verif/opt-passes &opt mask)"},
     {"verif/bits-to-double", v_bits_to_double, "(verif/bits-to-double hi lo)"},
     {"verif/double-to-bits", v_double_to_bits, "(verif/double-to-bits x)"},
+    {"verif/real-sleep", v_real_sleep, "(verif/real-sleep ms)\n\nSleep in real time."},
+    {"verif/pid-running", v_pid_running, "(verif/pid-running pid)"},
+    {"verif/live-threads", v_live_threads, "(verif/live-threads)"},
     {NULL, NULL, NULL}
 };
 
